@@ -422,11 +422,19 @@ def _s3(program, res, impl, tmeth):
                 res.fail("C05-S3", "pandas_base:PandasModelBase._populate_impl_map", f"pandas:{op}",
                          f"Pandas binds `{op}` to {txt}, which {facts.NULL_SEMANTICS[prim[0]]}s missing values; documented: {want}",
                          "data_algebra/pandas_base.py", 0)
+            elif prim and facts.NULL_SEMANTICS_MASKED.get(prim[0], want) != want and not _refills_missing(program, impl[op]):
+                res.fail("C05-S3", "pandas_base:PandasModelBase._populate_impl_map", f"pandas-masked:{op}",
+                         f"Pandas binds `{op}` to {txt}: on a nullable (masked) column {prim[0]} {facts.NULL_SEMANTICS_MASKED[prim[0]]}s <NA>; documented: {want}", "data_algebra/pandas_base.py", 0)
             else:
                 res.ok("C05-S3", f"Pandas {op}: impl_map entry {txt[:40]}")
         else:
             sem = facts.NULL_SEMANTICS.get(f"numpy.{op}")
-            if sem == want:
+            if sem == want and facts.NULL_SEMANTICS_MASKED.get(f"numpy.{op}", want) != want:
+                res.fail("C05-S3", "pandas_base:PandasModelBase.act_on_expression", f"pandas-masked:{op}",
+                         f"Pandas resolves `{op}` to the bare ufunc numpy.{op}: for NaN it {sem}s the missing value, but a pandas nullable (masked) column carries <NA> through every "
+                         f"ufunc — pd.array([5, None, 1], 'Int64').{op}(2) is <NA> in the second row on Pandas and 2 on SQLite / Polars (documented: {want} missing)",
+                         "data_algebra/pandas_base.py", 0)
+            elif sem == want:
                 res.ok("C05-S3", f"Pandas {op}: falls through to numpy.{op}, which {sem}s missing values")
             else:
                 res.fail("C05-S3", "pandas_base:PandasModelBase.act_on_expression", f"pandas:{op}",
@@ -460,6 +468,19 @@ def _s3(program, res, impl, tmeth):
         if a in pol and b in pol and unparse(pol[a]) == unparse(pol[b]):
             res.notes.append(f"Polars binds {a} and {b} to the same implementation although their null contracts differ (reported per method above)")
     res.assumptions.append("null behaviour of numpy.maximum/minimum/fmax/fmin and polars max_horizontal/min_horizontal (sa/facts.py NULL_SEMANTICS)")
+
+
+def _refills_missing(program, entry) -> bool:
+    """the impl_map entry goes through a method of the model that fills the cells the ufunc left missing (fillna / combine_first / where)"""
+    for c in ast.walk(entry):
+        if isinstance(c, ast.Call) and isinstance(c.func, ast.Attribute) and isinstance(c.func.value, ast.Name) and c.func.value.id == "self":
+            try:
+                h = program.method("pandas_base", "PandasModelBase", c.func.attr, inherited=False)
+            except Exception:
+                continue
+            if any(isinstance(x, ast.Call) and isinstance(x.func, ast.Attribute) and x.func.attr in ("fillna", "combine_first", "where", "mask") for x in ast.walk(h.node)):
+                return True
+    return False
 
 
 def sql_division_rule(program, res, dialect, rule):
@@ -590,7 +611,45 @@ def _s7_coalesce_missing_only(program, res):
         res.ok("C05-S7", "Pandas coalesce fills missing cells only (no test that also flags infinities)")
 
 
+def _s8_column_operand_kinds(program, res, rule="C05-S8"):
+    """the Pandas expression implementations return a Series or — numpy.where, numpy.char.add and friends — a numpy array.  A helper that tells a
+    column from a scalar by `isinstance(x, pd.Series)` alone takes such an array for a scalar"""
+    mod = program.module("pandas_base")
+    producers = []
+    for f in program.all_functions():
+        if f.module is not mod:
+            continue
+        for r in ast.walk(f.node):
+            v = r.value if isinstance(r, ast.Return) else (r.value if isinstance(r, ast.Assign) and len(r.targets) == 1 and unparse(r.targets[0]) == "res" else None)
+            if isinstance(v, ast.Call) and (dotted_name(v.func) or "") in facts.NUMPY_ARRAY_VALUED:
+                producers.append((f, dotted_name(v.func)))
+    if not producers:
+        res.ok(rule, "no Pandas expression implementation returns a bare numpy array")
+        return
+    n = 0
+    for f in program.all_functions():
+        if f.module is not mod:
+            continue
+        tests = [c for c in ast.walk(f.node) if isinstance(c, ast.Call) and dotted_name(c.func) == "isinstance" and len(c.args) == 2
+                 and unparse(c.args[1]).endswith("pd.Series") and isinstance(c.args[0], ast.Name) and c.args[0].id in f.params()]
+        for t in tests:
+            n += 1
+            p_ = t.args[0].id
+            also_array = any(isinstance(c, ast.Call) and dotted_name(c.func) == "isinstance" and len(c.args) == 2 and isinstance(c.args[0], ast.Name) and c.args[0].id == p_
+                             and "ndarray" in unparse(c.args[1]) for c in ast.walk(f.node))
+            if also_array:
+                res.ok(rule, f"{f.where()}: `{p_}` is recognised as a column when it is a Series or a numpy array")
+            else:
+                res.fail_at(rule, f, f"array-operand-taken-for-scalar:{f.node.name}:{p_}",
+                            f"{f.node.name} takes `{p_}` for a scalar unless it is a Series, but {len(producers)} expression implementations hand back numpy arrays "
+                            f"({sorted(set(x[1] for x in producers))}): x.where(...).coalesce(0) raises 'at least one argument must be a Pandas series' and "
+                            f"x.coalesce(c.if_else(a, b)) 'Data must be 1-dimensional' on Pandas; SQLite and Polars evaluate both", t)
+    res.expect_count(rule, "column / scalar discriminations in pandas_base", n, 2)
+
+
 def run(program, res, tier):
+    res.rule("C05-S8", "Pandas: helpers that tell columns from scalars know every column type the implementations return")
+    _s8_column_operand_kinds(program, res)
     res.rule("C05-S1", "every catalogued (method, backend) marked 'y' resolves to an implementation of the right meaning")
     res.rule("C05-S2", "three-valued truth tables of the SQL templates equal the documented null contracts")
     res.rule("C05-S3", "documented null contracts match the primitives each back end binds the method to")
